@@ -933,10 +933,14 @@ func (s *State) evalForInteger(fe *ast.ForExpression, start *int64, end int64, n
 	if name != "" && !s.NoReg && s.env.HasRegisters() {
 		var ok bool
 		register, newBody, ok = setupRegister(s.env, name, int64(startValue), fe.Body)
-		if !ok {
-			return s.Errorf("for loop register %s shouldn't be modified inside the loop", name)
+		if ok {
+			ptr = register.Ptr()
+		} else {
+			// The body can't use a register (closure over the loop variable, i++...): use a plain variable,
+			// like when registers are off.
+			s.env.ReleaseRegister(register)
+			newBody = fe.Body
 		}
-		ptr = register.Ptr()
 	}
 	var result object.Object // set when leaving the loop early.
 	for i := startValue; i < endValue && result == nil; i++ {
@@ -968,7 +972,12 @@ func (s *State) evalForInteger(fe *ast.ForExpression, start *int64, end int64, n
 	}
 	// Release on every way out of the loop (break, return, error included).
 	if ptr != nil {
+		last := *ptr
 		s.env.ReleaseRegister(register)
+		if endValue > startValue {
+			// Same visible state as without registers: the loop variable keeps its last value.
+			s.env.Set(name, object.Integer{Value: last})
+		}
 	}
 	if result != nil {
 		return result
